@@ -46,6 +46,14 @@ type xferScn struct {
 	// LateReaders: the application's readers start only when every writer has finished: the frames wait in the
 	// connections' queues, up to the configured queue length (the credits), also far above the default length
 	LateReaders bool `json:"latereaders,omitempty"`
+	// Deadlines[side]: Set*Deadline calls made on logical connections of that side just before the writers start,
+	// with a deadline that has expired already.  No-ops for the Mux: the transfer on every connection is unaffected
+	Deadlines [2][]dlop `json:"deadlines,omitempty"`
+}
+
+type dlop struct {
+	ID   uint32 `json:"id"`
+	Kind int    `json:"kind"` // 0 both, 1 read, 2 write
 }
 
 // blockedWait: a blocked scenario is unblocked after this time at the latest (the socket buffer was too
@@ -361,6 +369,23 @@ func execXfer(s *xferScn, maxp int) *xferObs {
 					}
 				}
 			}(side, w, prog, bufs, gated[w])
+		}
+	}
+	for side := 0; side < 2; side++ {
+		for _, d := range s.Deadlines[side] {
+			t := time.Now().Add(-time.Second)
+			var err error
+			switch d.Kind {
+			case 1:
+				err = conns[side][d.ID].SetReadDeadline(t)
+			case 2:
+				err = conns[side][d.ID].SetWriteDeadline(t)
+			default:
+				err = conns[side][d.ID].SetDeadline(t)
+			}
+			if err != nil {
+				fail("side %d id %d: Set*Deadline: %v", side, d.ID, err)
+			}
 		}
 	}
 	close(startC)
